@@ -14,13 +14,13 @@ from ..core.framework import Ctx, b2s
 
 SPEC = {
     "modules": ["HC.Props.C02"],
-    "extracted": ["Guards", "Consts", "ReqGlue"],
-    "technique": "Lean 4 transducer theorem (events handed to the protocol = specification of the app's messages, for every status/header list/chunking, by induction over chunks) + suppress_body and trailers gates + head-composition laws; tied by end-to-end runs on both workers parsed by independent h11/h2 clients",
-    "level_text": "Proved in Lean for every final status, every header list that validates and every chunking (any number of chunks, empty ones included): the protocol layer is given exactly one response head with the application's headers in order, the non-empty chunks in order (none when HEAD / 1xx / 204 / 304 — the extracted suppress_body, characterised), then end-of-body, one access record and stream-closed; trailers only on HTTP/2+ with te: trailers; the HTTP/1 head is app headers ++ server headers (date/server/alt-svc only) ++ connection: close at the request maximum; the HTTP/2 head is :status ++ app ++ server headers; a WINDOW_UPDATE / INITIAL_WINDOW_SIZE change unblocks every buffered stream it concerns (tests extracted from _window_updated: connection-level = all); HTTP/2 trailers are handed to the protocol iff HTTP/2+ and te: trailers, kept until the body is out and sent as the one frame that ends the stream (exactly one END_STREAM-carrying h2 call, extracted from _end_stream).  End-to-end on every run: scripted applications (status x headers x chunking incl. chunks larger than the 16 KiB frame and 64 KiB window) on HTTP/1.0, 1.1 and 2, both workers; HTTP/2 client shapes: stream windows smaller / larger than the connection window, frame size, 1-3 concurrent streams, seven acknowledgement styles (automatic, paused, late, explicit connection/stream WINDOW_UPDATEs in either order, connection only); trailers with and without te: trailers; independent h11/h2 client parsers recover status, headers, body and end-of-message, compared with the monitor and with the Lean-predicted view.",
-    "level_note": "Trusted: Lean kernel; stream model HC/Stream/Http.lean and head functions HC/Proto/Heads.lean (tied by differential runs); legal HTTP/1 framing and HTTP/2 framing/flow control are h11's and h2's (library behaviour, observed only through the independent client parsers, which raise on violations); 1xx as a final status is outside the quantifier.",
+    "extracted": ["Guards", "Consts", "ReqGlue", "Atomic", "Excepts"],
+    "technique": "Lean 4 transducer theorem (events handed to the protocol = specification of the app's messages, for every status/header list/chunking, by induction over chunks) + suppress_body and trailers gates + head-composition laws; HTTP/2 END TO END: a contents-carrying refinement of the C08/C09 send-path model (HC/Proto/H2Wire.lean: frames on the wire, FIFO buffer contents, pending trailers) with a per-stream invariant over every schedule, composed with the HTTPStream model and C09's delivery-at-quiescence theorem (h2_response_delivered, h2_response_end_to_end); tied by end-to-end runs on both workers parsed by independent h11/h2 clients, by the composed model's prediction for every HTTP/2 case, and by frame-by-frame trace acceptance of the contents model against the real H2Protocol (raw-frame ledger)",
+    "level_text": "Proved in Lean for every final status, every header list that validates and every chunking (any number of chunks, empty ones included): the protocol layer is given exactly one response head with the application's headers in order, the non-empty chunks in order (none when HEAD / 1xx / 204 / 304 — the extracted suppress_body, characterised), then end-of-body, one access record and stream-closed; trailers only on HTTP/2+ with te: trailers; the HTTP/1 head is app headers ++ server headers (date/server/alt-svc only) ++ connection: close at the request maximum; the HTTP/2 head is :status ++ app ++ server headers; a WINDOW_UPDATE / INITIAL_WINDOW_SIZE change unblocks every buffered stream it concerns (tests extracted from _window_updated: connection-level = all); HTTP/2 trailers are handed to the protocol iff HTTP/2+ and te: trailers, kept until the body is out and sent as the one frame that ends the stream (exactly one END_STREAM-carrying h2 call, extracted from _end_stream).  End-to-end on every run: scripted applications (status x headers x chunking incl. chunks larger than the 16 KiB frame and 64 KiB window) on HTTP/1.0, 1.1 and 2, both workers; HTTP/2 client shapes: stream windows smaller / larger than the connection window, frame size, 1-3 concurrent streams, seven acknowledgement styles (automatic, paused, late, explicit connection/stream WINDOW_UPDATEs in either order, connection only); trailers with and without te: trailers; independent h11/h2 client parsers recover status, headers, body and end-of-message, compared with the monitor and with the Lean-predicted view.  HTTP/2 END TO END (theorems h2_response_delivered / h2_response_end_to_end, with wire_refines and fifo): for every final status, header list that validates, chunking (any number of chunks, empty ones included, any sizes - beyond the frame size and the windows) and EVERY schedule of the send path (any interleaving of the stream events of any number of streams with WINDOW_UPDATE / SETTINGS / PRIORITY frames, the send task's picks - whatever unblocked stream the priority tree hands out -, its suspensions inside _send_data and the wake-ups of waiting senders; the only hypothesis on schedules is C09's: the send task sleeps only at DeadlockError) that ends with the send task quiescent, the connection open, the stream not reset and credit on the stream and the connection: the frames written on that stream are EXACTLY one HEADERS frame :status ++ validated application headers ++ server headers, then DATA frames whose payloads concatenate to the concatenation of the chunks (nothing when the body must be suppressed), then exactly one frame ending the stream - the empty DATA frame with END_STREAM, or the HEADERS frame carrying all pending trailers and END_STREAM - and nothing else.  The contents model (what bytes the byte counters of the C08/C09 model stand for: push extends the buffer at the back, pop takes from the front, close() empties it; _end_stream's test extracted) is proved to refine the C08/C09 model step by step, and is tied to the code twice: (1) frame by frame against the real H2Protocol driven directly with real HTTPStreams, real send task, h2 and priority (the reconstructed op list of every run - the same one C08/C09 replay - is replayed with the applications' bytes, Response and Trailers events at their positions; the frames it writes per stream - kinds, sizes, payload, response head, trailers - must equal the raw-frame ledger of the server's byte stream and what the independent client decoded; where the theorem's hypotheses hold at the end of a run its conclusion is evaluated on the implementation's wire), (2) end to end: for every HTTP/2 case the composition itself (HTTPStream model -> stream events -> a pseudo-random schedule of the send path with the client's windows and frame size, run to quiescence) must end as the theorem says and predict the status, headers, body, end-of-stream and trailers the independent h2 client saw on the real TCPServer.",
+    "level_note": "Trusted: Lean kernel; stream model HC/Stream/Http.lean and head functions HC/Proto/Heads.lean (tied by differential runs); the send-path model HC/Proto/H2Send.lean (C08/C09's, tied by their trace acceptance) and its contents wrapper HC/Proto/H2Wire.lean (tied by the frame-by-frame comparison; 'written' means handed to the transport); legal HTTP/1 framing and the HTTP/2 frame encoding / HPACK are h11's and h2's (library behaviour, observed only through the independent client parsers, which raise on violations); h2 drops connection-specific fields from a head it is handed; 1xx as a final status is outside the quantifier; the end-to-end HTTP/2 theorem speaks about a stream that is neither reset nor on a closed connection (the statement's own scope).",
     "rule": "status x method x header-variant x chunking-class x protocol x pace x worker x (HTTP/2: initial window, frame size, concurrent streams, trailers); distinct = distinct (protocol, method, status class, header variant, chunking class, pace, worker); non-trivial = a body is sent or must be suppressed",
     "trusted": ["h11 / h2 client-side parsers as oracles for what a client sees"],
-    "partial": ["framing legality is delegated to h11/h2 (LibM); the theorem stops at the events handed to them"],
+    "partial": ["HTTP/1: framing legality is delegated to h11 (LibM); the theorem stops at the events handed to it.  HTTP/2: the theorem goes down to the frames handed to h2 (kinds, order, payload bytes, header lists); their byte encoding is h2's"],
     "assumptions": ["applications send lower-case header names (ASGI requirement) and a content-length that matches the body when they send one"],
 }
 
@@ -209,6 +209,11 @@ def check(ctx: Ctx, cases: List[dict]) -> None:
                                                          "headers": S.headers_json(init["headers"])},
                      "msgs": [S.http_msg_json(m) for m in app_msgs(case)]})
     model = ctx.model(reqs)
+    # HTTP/2: the composed prediction (HTTPStream model -> stream events -> send path with contents, run to quiescence under a
+    # pseudo-random schedule with this client's windows and frame size): theorem `h2_response_delivered` says what it must be
+    h2idx = [i for i, c in enumerate(cases) if c["proto"] == "2"]
+    composed = ctx.model([predict_request(cases[i], reqs[i], i) for i in h2idx]) if h2idx else []
+    composed_at = dict(zip(h2idx, composed or []))
     for i, (case, o) in enumerate(zip(cases, obs)):
         ctx.evaluations += 1
         sclass = case["status"] // 100
@@ -273,8 +278,188 @@ def check(ctx: Ctx, cases: List[dict]) -> None:
                 if not ok:
                     ctx.disagree("stream.http_view", case, {k: (m[k] if k != "body" else len(m[k])) for k in (m or {})},
                                  {k: (v[k] if k != "body" else len(v[k])) for k in v})
+            if model is not None and case["proto"] == "2" and i in composed_at:
+                ctx.disagreements_checked += 1
+                bad = composed_mismatch(composed_at[i], v, want_trailers)
+                if bad is not None:
+                    ctx.disagree("h2wire.predict", case, bad, {k: (v[k] if k != "body" else len(v[k])) for k in v})
+                else:
+                    ctx.count("h2.composed", "agrees")
         if o["app_send"] is not None and any(r[2] != "ok" for r in o["app_send"]):
             ctx.violation("valid_send_raised", case, o["app_send"], sig)
+
+
+def predict_request(case: dict, view_req: dict, k: int) -> dict:
+    body_len = sum(len(c) for c in case["chunks"])
+    return {"cmd": "h2wire.predict", "init": view_req["init"], "msgs": view_req["msgs"], "srv": [], "sid": 1, "connWin": 65535,
+            "streamWin": case.get("initial_window") or 65535, "maxFrame": case.get("max_frame") or 16384, "seed": k,
+            "credits": [body_len // 3 + 1000] * 6}
+
+
+def composed_mismatch(m: dict, v: dict, want_trailers: List[List[str]]) -> Optional[dict]:
+    """the composed model's wire for the stream against what the independent client saw (None = they agree)"""
+    if "ok" not in m:
+        return {"what": "driver error", "detail": m}
+    st = m["ok"]["stream"]
+    fr = st["frames"]
+    brief = {"frames": [[f[0]] + ([f[1]] if f[0] == "data" else []) for f in fr][:12], "hyp": st["hyp"], "concl": st["concl"], "left": m["ok"]["left"]}
+    if not st["hyp"] or not st["concl"] or m["ok"]["left"]:
+        # the schedule ended with credit available and every message sent: the theorem's hypotheses and conclusion hold in the model
+        return {"what": "the composed run did not end as `h2_response_delivered` says", **brief}
+    heads = [f for f in fr if f[0] == "headers"]
+    ends = [f for f in fr if f[0] in ("end", "trailers_end")]
+    if len(heads) != 1 or fr[0] != heads[0] or len(ends) != 1 or fr[-1] != ends[0]:
+        return {"what": "shape", **brief}
+    mh = heads[0][1]
+    if v["headers"] is None or mh[0] != [":status", str(v["status"])]:
+        return {"what": "status", **brief}
+    got = [h for h in v["headers"] if h[0].lower() not in HOP]
+    if got[:len(mh) - 1] != mh[1:] or any(h[0] not in SERVER_OWN for h in got[len(mh) - 1:]):
+        return {"what": "headers", "model": mh, **brief}
+    if st["payload"] != v["body"]:
+        return {"what": "payload", "model_len": len(st["payload"]), **brief}
+    mt = ends[0][1] if ends[0][0] == "trailers_end" else []
+    if mt != (v.get("trailers") or []) or mt != want_trailers or not v["complete"]:
+        return {"what": "end of stream", "model_trailers": mt, **brief}
+    return None
+
+
+# --------------------------------------------------------------------------------------------------------------
+# the send path with contents against the real H2Protocol, frame by frame (direct drive of harness/core/h2drive.py)
+# --------------------------------------------------------------------------------------------------------------
+def wire_scenarios(ctx: Ctx, n: int) -> List[dict]:
+    from ..core import h2drive as H
+    rng = ctx.rng
+    out = []
+    for _ in range(n):
+        sc = H.gen_scenario(rng, "flow")
+        for act in sc["actions"]:
+            if act.get("do") != "open" or "app" not in act:
+                continue
+            app = act["app"]
+            if app and "start" in app[0]:
+                app[0]["headers"] = rng.choice([[], [["x-a", "1"]], [["set-cookie", "a=1"], ["x-b", " padded "], ["set-cookie", "b=2"]]])
+                ends = app[-1].get("more") is False
+                if ends and rng.random() < 0.35:
+                    app[0]["trailers"] = True
+                    tr = rng.choice([[[["x-trailer", "t1"]]], [[["x-a", "1"]], [["x-b", "2"]]]])
+                    for k, t in enumerate(tr):
+                        app.append({"trailers": t, "more": k < len(tr) - 1})
+                    act["te"] = rng.random() < 0.75
+        out.append(sc)
+    return out
+
+
+def wire_request(H, sc: dict, res: dict) -> dict:
+    """`h2wire.run`: the reconstructed op list of the run, the Response / Trailers events at the positions at which
+    `stream_send` was called, and for every push the bytes it stands for (the scripted applications write a known pattern)"""
+    heads_at: Dict[int, List[dict]] = {}
+    for h in res["heads"]:
+        heads_at.setdefault(h["at"], []).append({k: v for k, v in h.items() if k != "at"})
+    payload = {sid: H.expected_payload(sid, H.written_sizes(sc, res, sid)) for sid in res["ids"]}
+    cursor: Dict[int, int] = {}
+    ops: List[dict] = []
+    for k, op in enumerate(res["ops"]):
+        ops += heads_at.get(k, [])
+        if op["op"] == "push":
+            sid, pos = op["i"], cursor.get(op["i"], 0)
+            ops.append({"op": "push", "i": sid, "d": b2s(payload.get(sid, b"")[pos:pos + op["n"]])})
+            cursor[sid] = pos + op["n"]
+        else:
+            ops.append({k2: v2 for k2, v2 in op.items() if not k2.startswith("_")})
+    ops += heads_at.get(len(res["ops"]), [])
+    s0 = res["snaps"][0]
+    return {"cmd": "h2wire.run", "connWin": s0["connWin"], "maxFrame": s0["maxFrame"], "srv": [], "ids": res["ids"], "ops": ops}
+
+
+def real_frames(order: List[list], sid: int) -> List[list]:
+    """the frames the server wrote for `sid` (ledger of the raw byte stream), in the model's vocabulary"""
+    out: List[list] = []
+    seq = [e for e in order if e[1] == sid]
+    k = 0
+    while k < len(seq):
+        kind, _, n = seq[k]
+        nxt = seq[k + 1][0] if k + 1 < len(seq) else None
+        if kind == "headers":
+            out.append(["trailers_end"] if n else ["headers"])
+            k += 2 if n and nxt == "end" else 1
+        elif kind == "data":
+            if nxt == "end":
+                out += ([["data", n]] if n else []) + [["end"]]
+                k += 2
+            else:
+                out.append(["data", n])
+                k += 1
+        elif kind == "rst":
+            out.append(["rst"])
+            k += 1
+        else:
+            out.append([kind])
+            k += 1
+    return out
+
+
+def check_wire(ctx: Ctx, scenarios: List[dict]) -> None:
+    from ..core import h2drive as H
+    results = [H.run_scenario(sc) for sc in scenarios]
+    usable = [(sc, res) for sc, res in zip(scenarios, results) if not res.get("runaway") and res.get("ghost_at") is None]
+    model = ctx.model([wire_request(H, sc, res) for sc, res in usable])
+    for k, (sc, res) in enumerate(usable):
+        ctx.evaluations += 1
+        ctx.traces_validated += 1
+        case = {"family": "wire", "scenario": sc}
+        if model is None:
+            continue
+        ctx.disagreements_checked += 1
+        m = model[k].get("ok")
+        if m is None or m["stopped"] is not None:
+            ctx.disagree("h2wire.run", case, model[k] if m is None else {"stopped_at": m["stopped"], "op": res["ops"][min(m["stopped"], len(res["ops"]) - 1)] if res["ops"] else None},
+                         "an op taken by the implementation is not enabled in the composed model")
+            continue
+        for sid in res["ids"]:
+            ms = m["streams"].get(str(sid))
+            if ms is None:
+                continue
+            real = real_frames(res["ledger"]["order"], sid)
+            mine = [[f[0]] + ([f[1]] if f[0] == "data" else []) for f in ms["frames"]]
+            pay = b2s(res["ledger"]["payload"].get(sid, b""))
+            cl = res["client"]["streams"].get(str(sid), {})
+            diff = None
+            mt: List[Any] = []
+            # "written" in the model = handed to the transport.  On a connection that closed (client EOF, or a write that
+            # failed - the failing write *is* a flush) the tail of what was handed over never reached the client.
+            lost_tail = m["closed"] and mine[:len(real)] == real and ms["payload"].startswith(pay)
+            if mine != real and not lost_tail:
+                diff = {"what": "frames", "model": mine[:14], "impl": real[:14]}
+            elif ms["payload"] != pay and not lost_tail:
+                diff = {"what": "payload", "model_len": len(ms["payload"]), "impl_len": len(pay)}
+            elif sid not in res["client_rst"] and not m["closed"]:
+                # what the independent client decoded (a client that has reset the stream ignores what still arrives);
+                # h2 drops connection-specific fields (`connection`) from what it is handed
+                mh = [[h for h in f[1] if h[0] not in HOP] for f in ms["frames"] if f[0] == "headers"]
+                if mh and cl.get("head") is not None and cl["head"][:len(mh[-1])] != mh[-1]:
+                    diff = {"what": "head", "model": mh[-1], "impl": cl["head"]}
+                mt = [f[1] for f in ms["frames"] if f[0] == "trailers_end"]
+                if diff is None and (mt[0] if mt else None) != cl.get("trailers"):
+                    diff = {"what": "trailers", "model": mt, "impl": cl.get("trailers")}
+            if diff is None and ms["hyp"]:
+                # the theorem's hypotheses hold for this stream at the end of this schedule: its conclusion must be what the model
+                # computed - and the client must have the whole response
+                want = H.expected_payload(sid, H.written_sizes(sc, res, sid))
+                if not ms["concl"]:
+                    diff = {"what": "hypotheses of h2_response_delivered hold, conclusion does not (model)", "stream": ms}
+                elif res["ledger"]["end"].get(sid) != 1 or res["ledger"]["payload"].get(sid, b"") != want or (
+                        sid not in res["client_rst"] and not res["client"]["error"] and (not cl.get("ended") or cl.get("data") != want)):
+                    # (a client that reset the stream after the server had ended it ignores what still arrives: the wire decides)
+                    diff = {"what": "hypotheses hold, the client was not sent the whole response", "ended": cl.get("ended"), "end_frames": res["ledger"]["end"].get(sid),
+                            "got": len(res["ledger"]["payload"].get(sid, b"")), "want": len(want)}
+                ctx.count("wire.delivered", "trailers" if any(f[0] == "trailers_end" for f in ms["frames"]) else "plain")
+                ctx.distinct(["wire", len(real), bool(mt), sc.get("initial_window"), sc.get("max_frame")])
+            ctx.count("wire.streams", "compared")
+            if diff is not None:
+                ctx.disagree("h2wire.run", {**case, "sid": sid}, diff, "frames written by H2Protocol (raw-frame ledger / independent client)")
+    ctx.count("wire.runs", "usable", len(usable))
+    ctx.count("wire.runs", "skipped(runaway / priority library ghost)", len(results) - len(usable))
 
 
 def flow_corpus() -> List[dict]:
@@ -314,7 +499,11 @@ def run(ctx: Ctx) -> None:
                               "headers": [["x-a", "1"]], "header_variant": "custom1", "pace": "immediate",
                               "worker": "asyncio" if (status + len(method)) % 2 else "trio", "te": False})
     check(ctx, cases)
+    check_wire(ctx, wire_scenarios(ctx, ctx.budget(150, 2500)))
 
 
 def replay(ctx: Ctx, case: dict) -> None:
-    check(ctx, [case])
+    if case.get("family") == "wire":
+        check_wire(ctx, [case["scenario"]])
+    else:
+        check(ctx, [case])
